@@ -836,6 +836,9 @@ static void rand_walk(json_object *o, int *pt, int *pv, int *np)
 #include "linkhash.h"
 #include <inttypes.h>
 #include <float.h>
+#include <sys/mman.h>
+#include <unistd.h>
+#include "json_util.h"
 typedef struct
 {
 	int t; /* 0 int64, 1 uint64, 2 bool, 3 string, 4 double */
@@ -1148,6 +1151,23 @@ static void w_ser(int a)
 	const char *t = json_object_to_json_string_length(node[a], w_flags(f), &len);
 	if (!t || len > 600)
 		return;
+	static char fdtext[1024];
+	if (vh_below(3) == 0)
+	{
+		/* the same through a descriptor: what arrives there is the text (json_object_to_fd on an in-memory file) */
+		int fd = memfd_create("vh_world_ser", 0);
+		if (fd >= 0)
+		{
+			int rc = json_object_to_fd(fd, node[a], w_flags(f));
+			ssize_t got = rc == 0 ? pread(fd, fdtext, sizeof fdtext - 1, 0) : -1;
+			close(fd);
+			if (got < 0)
+				got = 0;
+			fdtext[got] = 0;
+			t = fdtext;
+			len = (size_t)got;
+		}
+	}
 	ev_begin("op");
 	ev_str("op", "ser");
 	ev_int("a", a);
@@ -1275,7 +1295,32 @@ static void w_parse(int a)
 		text[n++] = ' ';
 	text[n] = 0;
 	call_t *c = mk("parse");
-	json_object *o = json_tokener_parse(text);
+	json_object *o;
+	if (w_parse_flags >= 0 || vh_below(2))
+		o = json_tokener_parse(text);
+	else
+	{
+		/* the same text given to an incremental parser in pieces (the terminating NUL is the last byte given) */
+		struct json_tokener *tk = json_tokener_new();
+		size_t pos = 0, total = n + 1;
+		o = NULL;
+		while (pos < total)
+		{
+			size_t step = 1 + vh_below(vh_below(3) ? 7 : 40);
+			if (step > total - pos)
+				step = total - pos;
+			o = json_tokener_parse_ex(tk, text + pos, (int)step);
+			pos += step;
+			if (json_tokener_get_error(tk) != json_tokener_continue)
+				break;
+		}
+		if (json_tokener_get_error(tk) != json_tokener_success && o)
+		{
+			json_object_put(o);
+			o = NULL;
+		}
+		json_tokener_free(tk);
+	}
 	ev_begin("op");
 	ev_str("op", "parse");
 	ev_bytes("text", text, n);
@@ -1288,6 +1333,109 @@ static void w_parse(int a)
 	ev_int("ret", o ? 0 : -1);
 	ev_ints("newids", c->newids, (size_t)c->nnew);
 	w_dump("dump", o);
+	ev_end();
+}
+/* json_patch_apply in place with one copying operation (add / replace / copy): the document gets a subtree of fresh nodes */
+static void w_patch(int a)
+{
+	static const char *vals[] = {"7", "\"s\"", "[1,\"x\"]", "{\"k1\":true,\"k2\":[null]}", "null", "1.5", "{}", "[]", "-0.0", "[[2.50]]"};
+	int ft[3], fv[3], pt[4], pv[4], nf = 0, np = (int)vh_below(3);
+	int pop = (int)vh_below(3); /* 0 add, 1 replace, 2 copy */
+	rand_walk(node[a], pt, pv, &np);
+	if (pop != 1 || np == 0 || vh_below(4) == 0)
+	{
+		/* last token: a new or existing member / index / "-" */
+		pt[np] = (int)vh_below(3);
+		pv[np] = pt[np] == 0 ? 1 + (int)vh_below(5) : (int)vh_below(4);
+		np++;
+	}
+	if (pop == 2)
+	{
+		nf = 1 + (int)vh_below(3);
+		rand_walk(node[a], ft, fv, &nf);
+		if (nf == 0 || vh_below(8) == 0)
+		{
+			ft[0] = (int)vh_below(2);
+			fv[0] = ft[0] == 0 ? 1 + (int)vh_below(5) : (int)vh_below(4);
+			nf = 1;
+		}
+	}
+	char path[160], from[160];
+	path_string(path, pt, pv, np);
+	path_string(from, ft, fv, nf);
+	json_object *val = NULL;
+	const char *vt = vals[vh_below(sizeof vals / sizeof *vals)];
+	if (pop != 2)
+		val = json_tokener_parse(vt);
+	json_object *patch = json_object_new_array(), *op = json_object_new_object();
+	json_object_object_add(op, "op", json_object_new_string(pop == 0 ? "add" : pop == 1 ? "replace" : "copy"));
+	json_object_object_add(op, "path", json_object_new_string(path));
+	if (pop == 2)
+		json_object_object_add(op, "from", json_object_new_string(from));
+	else
+		json_object_object_add(op, "value", val);
+	json_object_array_add(patch, op);
+	call_t *c = mk("wpatch");
+	ev_begin("op");
+	ev_str("op", "wpatch");
+	ev_int("a", a);
+	ev_str("pop", pop == 0 ? "add" : pop == 1 ? "replace" : "copy");
+	ev_open_arr("path");
+	for (int j = 0; j < np; j++)
+	{
+		ev_open_obj(NULL);
+		ev_str("t", pt[j] == 0 ? "k" : pt[j] == 1 ? "i" : "-");
+		ev_int("v", pv[j]);
+		ev_close_obj();
+	}
+	ev_close_arr();
+	ev_open_arr("from");
+	for (int j = 0; j < nf; j++)
+	{
+		ev_open_obj(NULL);
+		ev_str("t", ft[j] == 0 ? "k" : ft[j] == 1 ? "i" : "-");
+		ev_int("v", fv[j]);
+		ev_close_obj();
+	}
+	ev_close_arr();
+	w_dump("val", val);
+	json_object *base = node[a];
+	int rc = json_patch_apply(NULL, patch, &base, NULL);
+	json_object_put(patch);
+	if (base != node[a])
+		rc = -9;
+	if (rc == 0)
+	{
+		/* the placed subtree: the child of the parent location named by the last token ("-": the last element) */
+		char ppath[160];
+		path_string(ppath, pt, pv, np - 1);
+		json_object *par = NULL, *placed = NULL;
+		if (json_pointer_get(node[a], ppath, &par) == 0 && par)
+		{
+			if (json_object_get_type(par) == json_type_object)
+			{
+				char key[16];
+				if (pt[np - 1] == 0)
+					snprintf(key, sizeof key, "k%d", pv[np - 1]);
+				else if (pt[np - 1] == 1)
+					snprintf(key, sizeof key, "%d", pv[np - 1]);
+				else
+					strcpy(key, "-");
+				json_object_object_get_ex(par, key, &placed);
+			}
+			else if (json_object_get_type(par) == json_type_array)
+				placed = json_object_array_get_idx(par, pt[np - 1] == 2 ? json_object_array_length(par) - 1 : (size_t)pv[np - 1]);
+		}
+		int fromid = 1;
+		assign_ids(placed, c, &fromid);
+	}
+	ev_int("ret", rc == 0 ? 0 : rc < 0 ? -1 : -8);
+	ev_ints("newids", c->newids, (size_t)c->nnew);
+	qsort(dead, (size_t)ndead, sizeof dead[0], cmp_ll);
+	qsort(fired, (size_t)nfired, sizeof fired[0], cmp_ll);
+	ev_ints("dead", dead, (size_t)ndead);
+	ev_ints("fired", fired, (size_t)nfired);
+	ndead = nfired = 0;
 	ev_end();
 }
 static int pick_held_leaf(void)
@@ -1433,10 +1581,15 @@ static void world_op(void)
 		if ((a = pick_held(2)))
 			w_asort(a);
 	}
-	else if (r < 93)
+	else if (r < 90)
 	{
 		if ((a = pick_held(vh_below(3) ? 3 : 0)))
 			w_parse(a);
+	}
+	else if (r < 94)
+	{
+		if ((a = pick_held(3)) && is_tree(node[a]) && nlive() < 150)
+			w_patch(a);
 	}
 	else
 	{
